@@ -356,15 +356,163 @@ Qed.
 
 (* ----------------------------------------------------------------- server *)
 
-Lemma chunked_end_total : forall f l c, (length l < f)%nat -> chunked_end f l c <> None.
+Lemma list_eqb_eq : forall a b, list_eqb a b = true -> a = b.
 Proof.
-  induction f as [|f IH]; intros l c Hf; [lia|]. cbn [chunked_end].
-  destruct l as [|x l']; [discriminate|].
-  destruct (find_pat CRLF (x :: l')) as [[szline after]|] eqn:Ef; [|discriminate].
-  destruct (sto_u64 16 szline) as [sz|]; [|discriminate].
-  destruct (sz =? 0).
-  { destruct (find_pat CRLF after) as [[t r]|]; discriminate. }
-  destruct ((lenN after <? sz) || (lenN after - sz <? 2)); [discriminate|].
-  apply IH. apply find_pat_spec in Ef. rewrite skipn_length.
-  rewrite Ef in Hf. unfold CRLF in Hf. rewrite !app_length in Hf. cbn [length] in Hf. lia.
+  induction a as [|x a IH]; intros [|y b] H; cbn [list_eqb] in H; try discriminate; [reflexivity|].
+  apply andb_prop in H as [H1 H2]. apply N.eqb_eq in H1. subst y. f_equal. now apply IH.
+Qed.
+
+(* the length-bearing fields of a header block, as the scan sees them *)
+Definition field_of (line : list N) : option (list N * list N) :=
+  match find_pat [58] line with
+  | None => None
+  | Some (k, v) => Some (map lower (trim k), trim v)
+  end.
+Definition fields_named (name : list N) (lines : list (list N)) : list (list N) :=
+  flat_map (fun l => match field_of l with
+                     | Some (k, v) => if list_eqb k name then [v] else []
+                     | None => []
+                     end) lines.
+Definition cl_fields := fields_named cl_name.
+Definition te_fields := fields_named te_name.
+
+Lemma fields_named_cons name line rest :
+  fields_named name (line :: rest) =
+  (match field_of line with
+   | Some (k, v) => if list_eqb k name then [v] else []
+   | None => []
+   end) ++ fields_named name rest.
+Proof. reflexivity. Qed.
+
+Lemma scan_bad_sticky : forall lines cl te ch n c, scan_headers lines cl te ch true <> HFraming n c.
+Proof.
+  induction lines as [|line rest IH]; intros cl te ch n c; cbn [scan_headers]; [discriminate|].
+  destruct (find_pat [58] line) as [[k v]|]; [|apply IH].
+  destruct (list_eqb (map lower (trim k)) cl_name).
+  - destruct (parse_content_length (trim v)) as [n0|]; [|apply IH].
+    destruct (match cl with Some m => negb (n0 =? m) | None => false end); [apply IH|].
+    destruct (MAX_BODY_SIZE <? n0); [discriminate|apply IH].
+  - destruct (list_eqb (map lower (trim k)) te_name); apply IH.
+Qed.
+
+Lemma last_cons_ne {A} (x : A) l d : l <> [] -> last (x :: l) d = last l d.
+Proof. destruct l; [congruence|reflexivity]. Qed.
+
+Lemma scan_sound_gen : forall lines cl te ch n c,
+  scan_headers lines cl te ch false = HFraming n c ->
+  Forall (fun v => parse_content_length v = Some n) (cl_fields lines) /\
+  (forall m, cl = Some m -> m = n) /\
+  (cl = None -> cl_fields lines = [] -> n = 0) /\
+  c = (match te_fields lines with [] => ch | _ => te_final_is_chunked (last (te_fields lines) []) end) /\
+  ((te = true \/ te_fields lines <> []) -> cl = None /\ cl_fields lines = [] /\ c = true).
+Proof.
+  induction lines as [|line rest IH]; intros cl te ch n c H; cbn [scan_headers] in H.
+  - cbn [orb] in H.
+    destruct (te && (match cl with Some _ => true | None => false end || negb ch)) eqn:E; [discriminate|].
+    injection H as <- <-. unfold cl_fields, te_fields. cbn [fields_named flat_map].
+    split; [constructor|split; [|split; [|split]]].
+    + intros m ->. reflexivity.
+    + intros -> _. reflexivity.
+    + reflexivity.
+    + intros [->|H]; [|congruence]. cbn [andb] in E. apply orb_false_iff in E as [E1 E2].
+      apply negb_false_iff in E2. destruct cl; [discriminate|]. auto.
+  - unfold cl_fields, te_fields in *. rewrite !fields_named_cons.
+    destruct (find_pat [58] line) as [[k v]|] eqn:Ef.
+    2:{ assert (Hfo : field_of line = None) by (unfold field_of; now rewrite Ef).
+        rewrite Hfo. cbn [app]. now apply IH. }
+    assert (Hfo : field_of line = Some (map lower (trim k), trim v)) by (unfold field_of; now rewrite Ef).
+    rewrite Hfo.
+    destruct (list_eqb (map lower (trim k)) cl_name) eqn:Ecl.
+    + (* a Content-Length field-line *)
+      assert (Ete : list_eqb (map lower (trim k)) te_name = false).
+      { apply list_eqb_eq in Ecl. rewrite Ecl. reflexivity. }
+      rewrite Ete. cbn [app].
+      destruct (parse_content_length (trim v)) as [n0|] eqn:Ep; [|exfalso; eapply scan_bad_sticky; eauto].
+      destruct (match cl with Some m => negb (n0 =? m) | None => false end) eqn:Ecf;
+        [exfalso; eapply scan_bad_sticky; eauto|].
+      destruct (MAX_BODY_SIZE <? n0); [discriminate|].
+      destruct (IH _ _ _ _ _ H) as (Ha & Hb & Hc & Hd & He).
+      pose proof (Hb n0 eq_refl) as Hn. subst n0.
+      split; [|split; [|split; [|split]]].
+      * constructor; assumption.
+      * intros m ->. apply negb_false_iff in Ecf. now apply N.eqb_eq in Ecf.
+      * intros _ Hnil. discriminate Hnil.
+      * exact Hd.
+      * intros Hp. destruct (He Hp) as (Hx & _). discriminate Hx.
+    + destruct (list_eqb (map lower (trim k)) te_name) eqn:Ete; [|cbn [app]; now apply IH].
+      (* a Transfer-Encoding field-line *)
+      cbn [app].
+      destruct (IH _ _ _ _ _ H) as (Ha & Hb & Hc & Hd & He).
+      destruct (He (or_introl eq_refl)) as (Hcl & Hnil & Hct).
+      split; [exact Ha|split; [exact Hb|split; [exact Hc|split]]].
+      * rewrite Hd. destruct (fields_named te_name rest) as [|y l]; reflexivity.
+      * intros _. auto.
+Qed.
+
+(* "never framed by guesswork": when the scan accepts a header block, every Content-Length field is a valid number
+   (or list of identical numbers) equal to the length used, the body is chunked exactly when a Transfer-Encoding
+   field is present, and then there is no Content-Length field and chunked is the final coding *)
+Theorem server_framing_sound lines n c :
+  scan_headers lines None false false false = HFraming n c ->
+  Forall (fun v => parse_content_length v = Some n) (cl_fields lines) /\
+  (cl_fields lines = [] -> n = 0) /\
+  (c = true <-> te_fields lines <> []) /\
+  (c = true -> cl_fields lines = [] /\ te_final_is_chunked (last (te_fields lines) []) = true).
+Proof.
+  intros H. destruct (scan_sound_gen _ _ _ _ _ _ H) as (Ha & Hb & Hc & Hd & He).
+  assert (Hiff : c = true <-> te_fields lines <> []).
+  { split.
+    - intros Hc1. rewrite Hc1 in Hd. destruct (te_fields lines); [discriminate Hd|discriminate].
+    - intros Hne. destruct (He (or_intror Hne)) as (_ & _ & Hx). exact Hx. }
+  split; [exact Ha|split; [auto|split; [exact Hiff|]]].
+  intros Hc1. pose proof (proj1 Hiff Hc1) as Hne.
+  destruct (He (or_intror Hne)) as (_ & Hx & _). split; [exact Hx|].
+  rewrite Hc1 in Hd. destruct (te_fields lines); [congruence|]. symmetry. exact Hd.
+Qed.
+
+Lemma enc_trs_app trs tail x : enc_trs trs tail ++ x = enc_trs trs (tail ++ x).
+Proof. induction trs as [|t trs IH]; cbn [enc_trs]; [reflexivity|]. now rewrite <- app_assoc, <- !app_comm_cons, IH. Qed.
+Lemma enc_pieces_app ps tail x : enc_pieces ps tail ++ x = enc_pieces ps (tail ++ x).
+Proof.
+  induction ps as [|p ps IH]; cbn [enc_pieces]; [reflexivity|].
+  rewrite <- !app_assoc, <- !app_comm_cons, <- !app_assoc, <- !app_comm_cons, IH. reflexivity.
+Qed.
+Lemma enc_body_surplus pieces lhex lext trs surplus :
+  enc_body pieces lhex lext trs [] ++ surplus = enc_body pieces lhex lext trs surplus.
+Proof.
+  unfold enc_body. rewrite enc_pieces_app. f_equal.
+  rewrite <- !app_assoc, <- !app_comm_cons, enc_trs_app. reflexivity.
+Qed.
+Lemma enc_pieces_length ps tail : (length ps <= length (enc_pieces ps tail))%nat.
+Proof.
+  induction ps as [|p ps IH]; cbn [enc_pieces length]; [lia|].
+  rewrite !app_length. cbn [length]. rewrite app_length. cbn [length]. lia.
+Qed.
+Lemma enc_body_length pieces lhex lext trs surplus :
+  (length pieces <= length (enc_body pieces lhex lext trs surplus))%nat.
+Proof. apply enc_pieces_length. Qed.
+
+(* the chunked scan of the server is the client's decoder run from the start of the body: exact on every valid
+   chunked body, with any trailer section, whatever follows *)
+Theorem server_chunked_exact : forall pieces lhex lext trs surplus start,
+  Forall (piece_ok MAX_BODY_SIZE) pieces ->
+  full_uint 16 lhex = Some 0 -> ext_ok lext -> ~ In 10 lext -> Forall trailer_ok trs ->
+  let body := enc_body pieces lhex lext trs [] in
+  chunked_end (body ++ surplus) start = EEnd (start + lenN body) (concat (map p_data pieces)).
+Proof.
+  intros pieces lhex lext trs surplus start Hp Hl He Hn Ht body.
+  unfold chunked_end.
+  assert (Hb : body ++ surplus = enc_body pieces lhex lext trs surplus).
+  { subst body. apply enc_body_surplus. }
+  rewrite Hb.
+  rewrite (chunked_exact MAX_BODY_SIZE pieces lhex lext trs surplus [] _ Hp Hl He Hn Ht).
+  - cbn [app]. f_equal. rewrite <- Hb, lenN_app. lia.
+  - pose proof (enc_body_length pieces lhex lext trs surplus). lia.
+Qed.
+
+Theorem server_chunk_scan_total : forall body start,
+  match chunked_end body start with ENeed | EBad | EEnd _ _ => True end /\
+  advance (S (length body)) MAX_BODY_SIZE body [] <> CFuel.
+Proof.
+  intros. split; [destruct (chunked_end body start); exact I|]. apply advance_no_fuel. lia.
 Qed.
